@@ -88,6 +88,8 @@ type Host struct {
 	// FailCreateEvery > 0: every n-th VirtualizationCreate on this host is rejected (stress workloads)
 	FailCreateEvery int64
 	createN         int64
+	// InfoDelayNs > 0: Info takes that long (atomic)
+	InfoDelayNs int64
 	calls      map[string]int
 }
 
@@ -228,7 +230,16 @@ func short(id string) string {
 }
 
 // Info .
-func (e *Engine) Info(context.Context) (*enginetypes.Info, error) {
+func (e *Engine) Info(ctx context.Context) (*enginetypes.Info, error) {
+	if d := time.Duration(atomic.LoadInt64(&e.host.InfoDelayNs)); d > 0 {
+		// a slow daemon: it answers after InfoDelay; when the caller's context ends first it reports that, a little late
+		select {
+		case <-time.After(d):
+		case <-ctx.Done():
+			time.Sleep(30 * time.Millisecond)
+			return nil, ctx.Err()
+		}
+	}
 	return &enginetypes.Info{Type: "verif", ID: e.host.Name, NCPU: e.host.NCPU, MemTotal: e.host.MemTotal}, nil
 }
 
